@@ -8,12 +8,321 @@ namespace Pycomm.Sock
 /-- a complete encapsulation frame: 24-byte header whose length field counts the bytes after it -/
 def WfFrame (f : Bytes) : Prop := Gen.HEADER_SIZE ≤ f.length ∧ f.length = Gen.HEADER_SIZE + lenField f
 
+/-! ### helper lemmas: termination -/
+
+theorem recvSome_size {s s' : List Ev} {d : Bytes} (h : recvSome s = .ok (d, s')) :
+    scriptSize s' < scriptSize s := by
+  unfold recvSome at h
+  split at h
+  · cases h
+  · cases h
+  · rename_i d0 s0 hnil heq
+    cases h
+    cases s with
+    | nil => simp [recv1] at heq
+    | cons e r =>
+      cases e with
+      | error => simp [recv1] at heq
+      | closed =>
+        simp only [recv1, Prod.mk.injEq, Option.some.injEq] at heq
+        obtain ⟨rfl, rfl⟩ := heq
+        exact (hnil rfl).elim
+      | chunk bs =>
+        simp only [recv1] at heq
+        split at heq
+        · simp only [Prod.mk.injEq, Option.some.injEq] at heq
+          obtain ⟨_, rfl⟩ := heq
+          simp only [scriptSize]; omega
+        · simp only [Prod.mk.injEq, Option.some.injEq] at heq
+          obtain ⟨_, rfl⟩ := heq
+          simp only [scriptSize, List.length_drop, RECV_SIZE] at *; omega
+
+theorem recvSome_not_hang (s : List Ev) : recvSome s ≠ .error .hang := by
+  unfold recvSome
+  split <;> simp
+
+theorem fillTo_not_hang : ∀ (fuel t : Nat) (acc : Bytes) (s : List Ev),
+    scriptSize s < fuel → fillTo fuel t acc s ≠ .error .hang := by
+  intro fuel
+  induction fuel with
+  | zero => intro t acc s h; omega
+  | succ n ih =>
+    intro t acc s h
+    unfold fillTo
+    split
+    · simp
+    · split
+      · rename_i e he
+        intro hc
+        cases hc
+        exact recvSome_not_hang s he
+      · rename_i d s' he
+        have := recvSome_size he
+        exact ih t (acc ++ d) s' (by omega)
+
+theorem fillTo_size : ∀ (fuel t : Nat) (acc : Bytes) (s : List Ev) (a : Bytes) (s' : List Ev),
+    fillTo fuel t acc s = .ok (a, s') → scriptSize s' ≤ scriptSize s := by
+  intro fuel
+  induction fuel with
+  | zero => intro t acc s a s' h; simp [fillTo] at h
+  | succ n ih =>
+    intro t acc s a s' h
+    unfold fillTo at h
+    split at h
+    · cases h; exact Nat.le_refl _
+    · split at h
+      · cases h
+      · rename_i d s1 he
+        have h1 := recvSome_size he
+        have h2 := ih _ _ _ _ _ h
+        omega
+
+/-! ### helper lemmas: send -/
+
+theorem send_all_aux : ∀ (fuel : Nat) (script : List (Option Nat)) (sent rem : Bytes),
+    (∀ a ∈ script, ∃ n, a = some n ∧ 0 < n) → rem.length < fuel →
+    send fuel script sent rem = .ok (sent ++ rem, sent.length + rem.length) := by
+  intro fuel
+  induction fuel with
+  | zero => intro script sent rem _ h; omega
+  | succ n ih =>
+    intro script sent rem hs hf
+    unfold send
+    cases rem with
+    | nil => simp
+    | cons b bs =>
+      simp only [List.isEmpty_cons, Bool.false_eq_true, if_false]
+      cases script with
+      | nil => rfl
+      | cons a rest =>
+        obtain ⟨m, rfl, hm⟩ := hs a (List.mem_cons_self)
+        simp only
+        have hk : min m (b :: bs).length ≠ 0 := by simp only [List.length_cons]; omega
+        rw [if_neg hk]
+        rw [ih rest _ _ (fun a ha => hs a (List.mem_cons_of_mem _ ha))
+          (by simp only [List.length_drop, List.length_cons] at *; omega)]
+        simp only [List.append_assoc, List.take_append_drop, List.length_append,
+          List.length_take, List.length_drop]
+        congr 2
+        omega
+
+theorem send_broken_aux (bad : Option Nat) (post : List (Option Nat))
+    (hbad : bad = none ∨ bad = some 0) :
+    ∀ (pre : List (Option Nat)) (fuel : Nat) (sent rem : Bytes),
+    (∀ a ∈ pre, ∃ n, a = some n ∧ 0 < n) →
+    (pre.map (fun a => a.getD 0)).sum < rem.length → rem.length < fuel →
+    send fuel (pre ++ bad :: post) sent rem = .error .comm := by
+  intro pre
+  induction pre with
+  | nil =>
+    intro fuel sent rem _ hsum hf
+    cases fuel with
+    | zero => omega
+    | succ n =>
+      unfold send
+      cases rem with
+      | nil => simp at hsum
+      | cons b bs =>
+        simp only [List.isEmpty_cons, Bool.false_eq_true, if_false, List.nil_append]
+        rcases hbad with rfl | rfl
+        · rfl
+        · simp
+  | cons a pre ih =>
+    intro fuel sent rem hs hsum hf
+    cases fuel with
+    | zero => omega
+    | succ n =>
+      unfold send
+      cases rem with
+      | nil => simp at hsum
+      | cons b bs =>
+        simp only [List.isEmpty_cons, Bool.false_eq_true, if_false, List.cons_append]
+        obtain ⟨m, rfl, hm⟩ := hs _ (List.mem_cons_self)
+        simp only [List.map_cons, Option.getD_some, List.sum_cons] at hsum
+        simp only
+        have hk : min m (b :: bs).length = m := by omega
+        rw [hk, if_neg (by omega)]
+        exact ih n _ _ (fun a ha => hs a (List.mem_cons_of_mem _ ha))
+          (by simp only [List.length_drop]; omega) (by simp only [List.length_drop]; omega)
+
+/-! ### helper lemmas: receive over a chunked script -/
+
+/-- one successful recv from a non-empty leading chunk: returns a non-empty piece `d`, and what is
+    left of the chunk (`c'` is `[]` or `[c.drop 256]`) stays at the head of the script -/
+theorem recvSome_chunk (c : Bytes) (hc : c ≠ []) (rest : List Ev) :
+    ∃ (d : Bytes) (c' : List Bytes), recvSome (Ev.chunk c :: rest) = .ok (d, c'.map Ev.chunk ++ rest)
+      ∧ d ≠ [] ∧ d ++ c'.flatten = c ∧ ∀ x ∈ c', x ≠ [] := by
+  by_cases h : c.length ≤ RECV_SIZE
+  · refine ⟨c, [], ?_, hc, by simp, by simp⟩
+    cases c with
+    | nil => contradiction
+    | cons a t => simp only [recvSome, recv1, if_pos h, List.map_nil, List.nil_append]
+  · have hlen : RECV_SIZE < c.length := by omega
+    have hd : c.drop RECV_SIZE ≠ [] := by
+      intro hd
+      have := congrArg List.length hd
+      simp only [List.length_drop, List.length_nil] at this
+      omega
+    refine ⟨c.take RECV_SIZE, [c.drop RECV_SIZE], ?_, ?_, by simp, by simpa using hd⟩
+    · cases ht : c.take RECV_SIZE with
+      | nil =>
+        have := congrArg List.length ht
+        simp only [List.length_take, List.length_nil, RECV_SIZE] at this hlen
+        omega
+      | cons a t => simp [recvSome, recv1, h, ht]
+    · intro ht
+      have := congrArg List.length ht
+      simp only [List.length_take, List.length_nil, RECV_SIZE] at this hlen
+      omega
+
+theorem recvSome_fault (fault : List Ev)
+    (hfault : fault = [] ∨ (∃ r, fault = Ev.closed :: r) ∨ (∃ r, fault = Ev.error :: r)) :
+    recvSome fault = .error .comm := by
+  rcases hfault with rfl | ⟨r, rfl⟩ | ⟨r, rfl⟩ <;> rfl
+
+theorem scriptSize_chunks (chunks : List Bytes) (tail : List Ev) :
+    chunks.flatten.length ≤ scriptSize (chunks.map Ev.chunk ++ tail) := by
+  induction chunks with
+  | nil => simp
+  | cons c cs ih =>
+    simp only [List.flatten_cons, List.length_append, List.map_cons, List.cons_append, scriptSize]
+    omega
+
+/-- the fill loop over a script that starts with non-empty chunks holding at least the bytes still
+    needed: it succeeds, consuming only chunk bytes, and the split `acc ++ chunks` is preserved -/
+theorem fillTo_chunks (tail : List Ev) (t : Nat) :
+    ∀ (fuel : Nat) (acc : Bytes) (chunks : List Bytes),
+      (∀ c ∈ chunks, c ≠ []) → t ≤ (acc ++ chunks.flatten).length → chunks.flatten.length < fuel →
+      ∃ (acc' : Bytes) (chunks' : List Bytes),
+        fillTo fuel t acc (chunks.map Ev.chunk ++ tail) = .ok (acc', chunks'.map Ev.chunk ++ tail)
+        ∧ acc' ++ chunks'.flatten = acc ++ chunks.flatten ∧ (∀ c ∈ chunks', c ≠ [])
+        ∧ t ≤ acc'.length ∧ chunks'.flatten.length ≤ chunks.flatten.length := by
+  intro fuel
+  induction fuel with
+  | zero => intro acc chunks _ _ h; omega
+  | succ n ih =>
+    intro acc chunks hne ht hf
+    unfold fillTo
+    by_cases hacc : t ≤ acc.length
+    · rw [if_pos hacc]
+      exact ⟨acc, chunks, rfl, rfl, hne, hacc, Nat.le_refl _⟩
+    · rw [if_neg hacc]
+      cases chunks with
+      | nil => simp at ht; omega
+      | cons c cs =>
+        obtain ⟨d, c', hr, hd, hdc, hc'⟩ :=
+          recvSome_chunk c (hne c List.mem_cons_self) (cs.map Ev.chunk ++ tail)
+        simp only [List.map_cons, List.cons_append]
+        rw [hr]
+        simp only
+        have hdl : 0 < d.length := List.length_pos_iff.mpr hd
+        have hfl : (c :: cs).flatten = d ++ (c' ++ cs).flatten := by
+          simp only [List.flatten_cons, List.flatten_append, ← hdc, List.append_assoc]
+        have hne' : ∀ x ∈ c' ++ cs, x ≠ [] := by
+          intro x hx
+          rcases List.mem_append.mp hx with hx | hx
+          · exact hc' x hx
+          · exact hne x (List.mem_cons_of_mem _ hx)
+        have hlen := congrArg List.length hfl
+        simp only [List.length_append] at hlen
+        obtain ⟨acc', chunks', h1, h2, h3, h4, h5⟩ := ih (acc ++ d) (c' ++ cs) hne'
+          (by rw [hfl] at ht; simpa [List.append_assoc] using ht) (by omega)
+        refine ⟨acc', chunks', ?_, ?_, h3, h4, by omega⟩
+        · rw [← h1, List.map_append, List.append_assoc]
+        · rw [h2, hfl, List.append_assoc]
+
+/-- the fill loop over a script whose chunks run out before the target is reached, followed by a
+    fault: CommError -/
+theorem fillTo_fault (fault : List Ev)
+    (hfault : fault = [] ∨ (∃ r, fault = Ev.closed :: r) ∨ (∃ r, fault = Ev.error :: r)) (t : Nat) :
+    ∀ (fuel : Nat) (acc : Bytes) (chunks : List Bytes),
+      (∀ c ∈ chunks, c ≠ []) → (acc ++ chunks.flatten).length < t → chunks.flatten.length < fuel →
+      fillTo fuel t acc (chunks.map Ev.chunk ++ fault) = .error .comm := by
+  intro fuel
+  induction fuel with
+  | zero => intro acc chunks _ _ h; omega
+  | succ n ih =>
+    intro acc chunks hne ht hf
+    unfold fillTo
+    have hacc : ¬ t ≤ acc.length := by simp only [List.length_append] at ht; omega
+    rw [if_neg hacc]
+    cases chunks with
+    | nil => simp only [List.map_nil, List.nil_append, recvSome_fault fault hfault]
+    | cons c cs =>
+      obtain ⟨d, c', hr, hd, hdc, hc'⟩ :=
+        recvSome_chunk c (hne c List.mem_cons_self) (cs.map Ev.chunk ++ fault)
+      simp only [List.map_cons, List.cons_append]
+      rw [hr]
+      simp only
+      have hdl : 0 < d.length := List.length_pos_iff.mpr hd
+      have hfl : (c :: cs).flatten = d ++ (c' ++ cs).flatten := by
+        simp only [List.flatten_cons, List.flatten_append, ← hdc, List.append_assoc]
+      have hne' : ∀ x ∈ c' ++ cs, x ≠ [] := by
+        intro x hx
+        rcases List.mem_append.mp hx with hx | hx
+        · exact hc' x hx
+        · exact hne x (List.mem_cons_of_mem _ hx)
+      have hlen := congrArg List.length hfl
+      simp only [List.length_append] at hlen
+      have := ih (acc ++ d) (c' ++ cs) hne'
+        (by rw [hfl] at ht; simpa [List.append_assoc] using ht) (by omega)
+      rw [← this, List.map_append, List.append_assoc]
+
+/-- the length field lives in bytes 2..3, so it is already determined by any prefix of ≥ 4 bytes -/
+theorem lenField_append (a b : Bytes) (h : 4 ≤ a.length) : lenField (a ++ b) = lenField a := by
+  unfold lenField
+  simp only [List.getD_eq_getElem?_getD]
+  rw [List.getElem?_append_left (by omega), List.getElem?_append_left (by omega)]
+
+-- PROPERTY THEOREMS
 /-- the transport delivers exactly `f`, split into the given non-empty chunks (each possibly larger
     than one recv), followed by anything at all (`tail` is never consulted) -/
 theorem receive_any_split (f : Bytes) (hf : WfFrame f) (chunks : List Bytes)
     (hj : chunks.flatten = f) (hne : ∀ c ∈ chunks, c ≠ []) (tail : List Ev) :
     receive (chunks.map Ev.chunk ++ tail) = .ok f := by
-  sorry
+  subst hj
+  obtain ⟨h24, hlen⟩ := hf
+  have hH : Gen.HEADER_SIZE = 24 := by decide
+  cases chunks with
+  | nil => simp [hH] at h24
+  | cons c cs =>
+    obtain ⟨d, c', hr, hd, hdc, hc'⟩ :=
+      recvSome_chunk c (hne c List.mem_cons_self) (cs.map Ev.chunk ++ tail)
+    have hsz := scriptSize_chunks (c :: cs) tail
+    simp only [List.map_cons, List.cons_append] at hsz
+    simp only [receive, List.map_cons, List.cons_append]
+    generalize scriptSize (Ev.chunk c :: (cs.map Ev.chunk ++ tail)) = sz at hsz ⊢
+    rw [hr]
+    simp only
+    rw [← List.append_assoc, ← List.map_append]
+    have hdl : 0 < d.length := List.length_pos_iff.mpr hd
+    have hfl : (c :: cs).flatten = d ++ (c' ++ cs).flatten := by
+      simp only [List.flatten_cons, List.flatten_append, ← hdc, List.append_assoc]
+    have hne' : ∀ x ∈ c' ++ cs, x ≠ [] := by
+      intro x hx
+      rcases List.mem_append.mp hx with hx | hx
+      · exact hc' x hx
+      · exact hne x (List.mem_cons_of_mem _ hx)
+    have hl := congrArg List.length hfl
+    simp only [List.length_append] at hl
+    obtain ⟨d2, ch2, e1, e2, e3, e4, e5⟩ := fillTo_chunks tail Gen.HEADER_SIZE (sz + 2) d (c' ++ cs) hne'
+      (by rw [← hfl]; exact h24) (by omega)
+    rw [e1]
+    simp only
+    have hlf : lenField d2 = lenField (c :: cs).flatten := by
+      rw [hfl, ← e2, lenField_append _ _ (by omega)]
+    obtain ⟨d3, ch3, g1, g2, g3, g4, g5⟩ :=
+      fillTo_chunks tail (Gen.HEADER_SIZE + lenField d2) (sz + 2) d2 ch2 e3
+        (by rw [e2, ← hfl, hlf, ← hlen]; exact Nat.le_refl _) (by omega)
+    rw [g1]
+    simp only
+    have hd3 : d3 ++ ch3.flatten = (c :: cs).flatten := by rw [g2, e2, hfl]
+    have hl3 := congrArg List.length hd3
+    rw [hlf, ← hlen] at g4
+    simp only [List.length_append] at hl3
+    have hnil : ch3.flatten = [] := List.eq_nil_of_length_eq_zero (by omega)
+    rw [hnil, List.append_nil] at hd3
+    rw [hd3]
 
 /-- if the peer closes, errors, or goes silent before the frame is complete, receive ends in CommError
     (never a partial frame, never the fuel marker) -/
@@ -21,18 +330,76 @@ theorem receive_short_fault (f : Bytes) (hf : WfFrame f) (chunks : List Bytes) (
     (hj : chunks.flatten = p) (hne : ∀ c ∈ chunks, c ≠ []) (hp : p <+: f) (hlt : p.length < f.length)
     (fault : List Ev) (hfault : fault = [] ∨ (∃ r, fault = Ev.closed :: r) ∨ (∃ r, fault = Ev.error :: r)) :
     receive (chunks.map Ev.chunk ++ fault) = .error .comm := by
-  sorry
+  subst hj
+  obtain ⟨h24, hlen⟩ := hf
+  obtain ⟨x, rfl⟩ := hp
+  have hH : Gen.HEADER_SIZE = 24 := by decide
+  cases chunks with
+  | nil =>
+    simp only [receive, List.map_nil, List.nil_append, recvSome_fault fault hfault]
+  | cons c cs =>
+    obtain ⟨d, c', hr, hd, hdc, hc'⟩ :=
+      recvSome_chunk c (hne c List.mem_cons_self) (cs.map Ev.chunk ++ fault)
+    have hsz := scriptSize_chunks (c :: cs) fault
+    simp only [List.map_cons, List.cons_append] at hsz
+    simp only [receive, List.map_cons, List.cons_append]
+    generalize scriptSize (Ev.chunk c :: (cs.map Ev.chunk ++ fault)) = sz at hsz ⊢
+    rw [hr]
+    simp only
+    rw [← List.append_assoc, ← List.map_append]
+    have hdl : 0 < d.length := List.length_pos_iff.mpr hd
+    have hfl : (c :: cs).flatten = d ++ (c' ++ cs).flatten := by
+      simp only [List.flatten_cons, List.flatten_append, ← hdc, List.append_assoc]
+    have hne' : ∀ x ∈ c' ++ cs, x ≠ [] := by
+      intro x hx
+      rcases List.mem_append.mp hx with hx | hx
+      · exact hc' x hx
+      · exact hne x (List.mem_cons_of_mem _ hx)
+    have hl := congrArg List.length hfl
+    simp only [List.length_append] at hl
+    by_cases hp24 : Gen.HEADER_SIZE ≤ (c :: cs).flatten.length
+    · obtain ⟨d2, ch2, e1, e2, e3, e4, e5⟩ :=
+        fillTo_chunks fault Gen.HEADER_SIZE (sz + 2) d (c' ++ cs) hne'
+          (by rw [← hfl]; exact hp24) (by omega)
+      rw [e1]
+      simp only
+      have hlf : lenField d2 = lenField ((c :: cs).flatten ++ x) := by
+        rw [hfl, ← e2, List.append_assoc, lenField_append _ _ (by omega)]
+      rw [fillTo_fault fault hfault (Gen.HEADER_SIZE + lenField d2) (sz + 2) d2 ch2 e3
+        (by rw [e2, ← hfl, hlf, ← hlen]; exact hlt) (by omega)]
+    · rw [fillTo_fault fault hfault Gen.HEADER_SIZE (sz + 2) d (c' ++ cs) hne'
+        (by rw [← hfl]; omega) (by omega)]
 
 /-- receive never exhausts its fuel: on every script it terminates with a frame or CommError -/
 theorem receive_terminates (s : List Ev) : receive s ≠ .error .hang := by
-  sorry
+  unfold receive
+  simp only
+  split
+  · rename_i e he
+    intro hc; cases hc
+    exact recvSome_not_hang s he
+  · rename_i d s1 he
+    have h1 := recvSome_size he
+    split
+    · rename_i e hf
+      intro hc; cases hc
+      exact fillTo_not_hang _ _ _ _ (by omega) hf
+    · rename_i d2 s2 hf
+      have h2 := fillTo_size _ _ _ _ _ _ hf
+      split
+      · rename_i e hg
+        intro hc; cases hc
+        exact fillTo_not_hang _ _ _ _ (by omega) hg
+      · simp
 
 /-- every pattern of partial sends that always accepts at least one byte delivers the whole message,
     in order, and reports its length -/
 theorem send_all (script : List (Option Nat)) (msg : Bytes)
     (h : ∀ a ∈ script, ∃ n, a = some n ∧ 0 < n) :
     sendMsg script msg = .ok (msg, msg.length) := by
-  sorry
+  unfold sendMsg
+  rw [send_all_aux _ _ _ _ h (Nat.lt_succ_self _)]
+  simp
 
 /-- a send that accepts nothing (or raises) while bytes remain is CommError -/
 theorem send_broken (pre : List (Option Nat)) (bad : Option Nat) (post : List (Option Nat)) (msg : Bytes)
@@ -40,6 +407,7 @@ theorem send_broken (pre : List (Option Nat)) (bad : Option Nat) (post : List (O
     (hsum : (pre.map (fun a => a.getD 0)).sum < msg.length)
     (hbad : bad = none ∨ bad = some 0) :
     sendMsg (pre ++ bad :: post) msg = .error .comm := by
-  sorry
+  unfold sendMsg
+  exact send_broken_aux bad post hbad pre _ _ _ hpre hsum (Nat.lt_succ_self _)
 
 end Pycomm.Sock
